@@ -233,7 +233,9 @@ def _bounds_Assign_targets(
 
     bound_end_ln, bound_end_col, _, _ = ast.value.f.pars()
 
-    if bound_end_col and self.root._lines[bound_end_ln][bound_end_col - 1].isspace():  # leave space between end of bound and start of value so that we don't get stuff like 'a =b'
+    if (bound_end_col and self.root._lines[bound_end_ln][bound_end_col - 1].isspace()  # leave space between end of bound and start of value so that we don't get stuff like 'a =b'
+        and (bound_end_ln != self.ln or bound_end_col > self.col)  # but not the indentation before a value which starts the statement (no targets left)
+    ):
         bound_end_col -= 1
 
     if start:
